@@ -189,6 +189,23 @@ def slice_value(ip, st, cont, lo, hi):
     raise X.Unanalysable('slice of %r' % (cont,))
 
 
+@S('core::slice::cmp::<impl std::cmp::PartialEq<[U]> for [T]>::eq', 'core::slice::cmp::<impl std::cmp::PartialEq<[U]> for [T]>::ne')
+def s_slice_eq(ip, st, fr, name, args, c, site):
+    """a == b on slices: different lengths are unequal, two empty slices are equal, otherwise the element-wise
+    comparison stays an opaque boolean  slice_eq(a, b)  (rules that need its meaning link it to their own predicates)"""
+    a = deref_all(ip, st, args[0])
+    b = deref_all(ip, st, args[1])
+    ta, tb = ip.to_term(st, a), ip.to_term(st, b)
+    na, nb = ip.len_of(st, a), ip.len_of(st, b)
+    neg = name.endswith('::ne')
+    e = T.typed(('call', 'slice_eq', (ta, tb)), 'bool')
+    if ta == tb:
+        return one(B(not neg))
+    return [([T.mk_cmp('ne', na, nb)], lambda *x: B(neg)),
+            ([T.mk_cmp('eq', na, nb), T.mk_cmp('eq', na, I(0))], lambda *x: B(not neg)),
+            ([T.mk_cmp('eq', na, nb), T.mk_cmp('lt', I(0), na)], lambda *x: (T.mk_not(e) if neg else e))]
+
+
 @S('core::slice::<impl [T]>::split_first', 'core::slice::<impl [T]>::first', 'core::slice::<impl [T]>::split_last', 'core::slice::<impl [T]>::last')
 def s_split_first(ip, st, fr, name, args, c, site):
     """first / split_first / last / split_last of a slice: None for an empty one, else the element (and the rest)"""
